@@ -387,6 +387,13 @@ where
             .store()
             .subslice_utf8_offset(self.text())
             .expect("subslice should succeed");
+        if abscursor > self.textlen() {
+            //the position is relative to this text selection and may not reach beyond it
+            return Err(StamError::CursorOutOfBounds(
+                Cursor::BeginAligned(abscursor),
+                "utf8byte(): position beyond the text selection",
+            ));
+        }
         Ok(self.store().utf8byte(self.absolute_cursor(abscursor))? - beginbyte)
     }
 
@@ -398,6 +405,12 @@ where
             .store()
             .subslice_utf8_offset(self.text())
             .expect("subslice should succeed");
+        if bytecursor > self.text().len() {
+            return Err(StamError::CursorOutOfBounds(
+                Cursor::BeginAligned(self.textlen()),
+                "utf8byte_to_charpos(): the byte position lies beyond the text selection (which ends at the cursor in this error)",
+            ));
+        }
         Ok(self
             .store()
             .utf8byte_to_charpos(beginbyte + bytecursor)?
@@ -578,6 +591,13 @@ where
             .store()
             .subslice_utf8_offset(self.text())
             .expect("subslice should succeed");
+        if abscursor > self.textlen() {
+            //the position is relative to this text selection and may not reach beyond it
+            return Err(StamError::CursorOutOfBounds(
+                Cursor::BeginAligned(abscursor),
+                "utf8byte(): position beyond the text selection",
+            ));
+        }
         Ok(self.store().utf8byte(self.absolute_cursor(abscursor))? - beginbyte)
     }
 
@@ -589,6 +609,12 @@ where
             .store()
             .subslice_utf8_offset(self.text())
             .expect("subslice should succeed");
+        if bytecursor > self.text().len() {
+            return Err(StamError::CursorOutOfBounds(
+                Cursor::BeginAligned(self.textlen()),
+                "utf8byte_to_charpos(): the byte position lies beyond the text selection (which ends at the cursor in this error)",
+            ));
+        }
         Ok(self
             .store()
             .utf8byte_to_charpos(beginbyte + bytecursor)?
